@@ -250,6 +250,8 @@ func (b *Built) build(s *Spec) (res error) {
 		return errors.HandleAsAssertionFailure(c)
 	case "assertwrap":
 		return errors.NewAssertionErrorWithWrappedErrf(c, Fmt3(S(0)), S(1), errors.Safe(S(2)))
+	case "assertwraperr":
+		return errors.NewAssertionErrorWithWrappedErrf(c, "lit "+esc(S(0))+" e=%v", xs[0])
 	case "newfw":
 		return errors.Newf(Fmt3(S(0))+": %w", S(1), errors.Safe(S(2)), c)
 	case "newfwsuffix":
@@ -269,6 +271,9 @@ func (b *Built) build(s *Spec) (res error) {
 	case "ossyscall":
 		return os.NewSyscallError(S(0), c)
 	case "netop":
+		if len(s.I) > 0 && s.I[0] == 1 {
+			return &net.OpError{Op: S(0), Net: S(1), Source: unixAddr(S(2)), Err: c}
+		}
 		return &net.OpError{Op: S(0), Net: S(1), Addr: unixAddr(S(2)), Err: c}
 	case "netopsrc":
 		return &net.OpError{Op: S(0), Net: S(1), Source: unixAddr(S(2)), Addr: unixAddr(S(3)), Err: c}
